@@ -36,7 +36,9 @@ SNIPPETS = {
     # a patch file that exists but is not a well-formed IPS file (no header; cut in the middle of a record)
     "malformed_ips": [".include_ips 'nohdr.ips', 0", ".include_ips 'trunc.ips', 0", ".include_ips 'trunc2.ips', 0x100"],
     "undefined_operand_nosuffix": ["lda nosuchsym"],
-    "unmapped_position": ["*=0x700000\n.db 1", "*=0xD08000\n.db 1", "*=0xEF8000\n.db 1", "*=0x7D0000\n.db 1"],
+    "unmapped_position": ["*=0x700000\n.db 1", "*=0xD08000\n.db 1", "*=0xEF8000\n.db 1", "*=0x7D0000\n.db 1",
+                          # data that runs from the last mapped bank into an unmapped one
+                          "*=0x6FFFFE\n.db 1, 2, 3, 4", "*=0xCFFFFE\nlda.l 0x123456\nnop"],
     "undefined_equ": ["vv = nosuchsym + 1"],
     "undefined_operand": ["lda.w nosuchsym", "jmp.w nosuchsym"],
     "undefined_data": [".dw nosuchsym", ".db 1, nosuchsym"],
